@@ -62,23 +62,30 @@ func parseRace(blk string) RaceReport {
 	lines := strings.Split(blk, "\n")
 	section := ""
 	found := false
+	accesses := 0
 	for _, ln := range lines {
 		switch {
 		case strings.HasPrefix(ln, "Write at"), strings.HasPrefix(ln, "Read at"), strings.HasPrefix(ln, "Previous write at"),
 			strings.HasPrefix(ln, "Previous read at"), strings.HasPrefix(ln, "Atomic"), strings.HasPrefix(ln, "Previous atomic"):
 			section = "access"
 			found = false
+			accesses++
 		case strings.HasPrefix(ln, "Goroutine "):
 			section = "created"
 		case section == "access" && strings.HasPrefix(ln, "  ") && !strings.HasPrefix(ln, "   "):
+			// The access belongs to the innermost frame that is not the Go
+			// runtime / standard library: the library under test or the harness.
 			fn := strings.TrimSpace(ln)
-			if !found && strings.Contains(fn, repoPkg) {
-				if i := strings.Index(fn, "("); i > 0 && strings.HasSuffix(fn, ")") {
-					// keep receiver and method, drop the argument list "()"
-					fn = strings.TrimSuffix(fn, "()")
-				}
+			if found {
+				continue
+			}
+			switch {
+			case strings.Contains(fn, repoPkg):
+				fn = strings.TrimSuffix(fn, "()")
 				rep.RepoFrame = append(rep.RepoFrame, strings.TrimPrefix(fn, repoPkg+"/v2"))
 				found = true
+			case strings.HasPrefix(fn, "verifsim/"):
+				found = true // harness memory access
 			}
 		}
 	}
